@@ -48,6 +48,19 @@ def judge_list(ctx, raws, style):
         return ctx.violation('C31|list-raises|n=%s' % shape(len(raws)), repr(e), case)
     if got != want:
         return ctx.violation('C31|list-hash|n=%s' % shape(len(raws)), 'n=%d got=%s want=%s' % (len(raws), got, want), case)
+    if raws and len(raws) % 3 == 1:
+        # the caller's list edited in place and hashed again, then an equal fresh list: the hash is of what the list holds now
+        extra = bytes(hashlib.blake2b(raws[0] + b'x', digest_size=32).digest())
+        hs[0] = ophash(extra)
+        want2 = B.encode(MK.root([extra] + list(raws[1:])), 'Lo')
+        ctx.count('lists_hashed_again_after_an_in_place_edit')
+        for label, arg in (('same-list-object', hs), ('equal-fresh-list', list(hs))):
+            try:
+                got2 = Hm.operation_list_hash(arg)
+            except Exception as e:
+                return ctx.violation('C31|list-raises|after-in-place-edit', repr(e), case)
+            if got2 != want2:
+                return ctx.violation('C31|list-hash|after-in-place-edit|' + label, 'got=%s want=%s' % (got2, want2), dict(case, edited_first=ophash(extra)))
     return got
 
 
